@@ -45,6 +45,10 @@ SPEC = {
         "through state_dict()/load_state_dict(strict=False); batched entries start from their constructor values on both sides",
         "trainer comparison: batch_reduction=torch.sum, accumulators cleared (not applied) after each step so that parameters stay identical; "
         "float64, 1e-9 relative (sums are re-associated)",
+        "bit-exactness across batch sizes is demanded wherever the code performs no floating-point reduction over presynaptic elements "
+        "(neurons, synapses, records, pointers, spikes, direct connections) and — in the exact-arithmetic half of the connection / layer / trainer "
+        "cases (dyadic weights, delta-type synapses) — of everything; where F.linear / einsum / conv sum non-dyadic terms, torch picks different "
+        "summation orders for different batch sizes, and floating-point entries downstream are compared to 1e-12 (outputs) / 1e-9 (state) relative",
         "CPU, float64",
     ],
 }
@@ -80,8 +84,11 @@ def sample_of(name, xB, x1, b, B):
     return xB.narrow(dims[0], b, 1)
 
 
-def compare_snapshots(snapB, snaps1, B):
-    """first per-sample disagreement between the batched snapshot and the single-sample snapshots"""
+def compare_snapshots(snapB, snaps1, B, tol=None):
+    """first per-sample disagreement between the batched snapshot and the single-sample snapshots.
+    tol=None: torch.equal on everything.  tol=t: floating-point entries may differ by t (relative) — used ONLY downstream of a
+    floating-point reduction over presynaptic elements (F.linear / einsum / conv pick different summation orders for different
+    batch sizes, so sums of non-dyadic terms differ in the last bits); discrete entries (spikes, pointers, flags) stay exact"""
     for k in sorted(snapB):
         xB = snapB[k]
         for b in range(B):
@@ -97,6 +104,8 @@ def compare_snapshots(snapB, snaps1, B):
             s = sample_of(k, xB, x1, b, B)
             s = xB if s is None else s
             if s.dtype != x1.dtype or not torch.equal(s, x1):
+                if tol is not None and s.dtype == x1.dtype and s.is_floating_point() and s.shape == x1.shape and approx(s, x1, tol):
+                    continue
                 same_nan = s.shape == x1.shape and torch.equal(torch.isnan(s.double()), torch.isnan(x1.double())) and \
                     torch.equal(torch.nan_to_num(s.double()), torch.nan_to_num(x1.double()))
                 if not same_nan:
@@ -124,7 +133,7 @@ def neuron_stream(ctx, ex, thorough):
     rng = ctx.rng
     T = 30 if thorough else 16
     for kind in nb.NEURON_KINDS:
-        for rep in range(6 if thorough else 2):
+        for rep in range(40 if thorough else 10):
             cfg = nb.neuron_cfg(rng, kind)
             shape = rng.choice([(3,), (2, 2), (4,)])
             B = rng.choice([2, 3, 4])
@@ -185,7 +194,7 @@ def synapse_stream(ctx, ex, thorough):
     T = 24 if thorough else 12
     for kind in nb.SYNAPSES:
         for delayed in (False, True):
-            for rep in range(4 if thorough else 2):
+            for rep in range(30 if thorough else 8):
                 sc = nb.synapse_cfg(rng, kind)
                 dt = rng.choice([0.5, 1.0])
                 delay = rng.choice([2.0, 3.0]) if delayed else 0.0
@@ -238,8 +247,12 @@ def connection_stream(ctx, ex, thorough):
     T = 20 if thorough else 10
     for kind in nb.CONNECTIONS:
         for delayed in (False, True):
-            for rep in range(4 if thorough else 2):
-                cc = nb.connection_cfg(rng, kind, nb.synapse_cfg(rng, rng.choice(nb.SYNAPSES)), delayed)
+            for rep in range(30 if thorough else 8):
+                exact = rep % 2 == 0 or kind == "direct"
+                # exact mode: dyadic weights and delta-type synapses make every sum exact, so torch.equal is demanded of the outputs
+                # too; otherwise (exponential synapses, arbitrary weights) the reduced output is compared to 1e-12 relative
+                dy = rep % 2 == 0
+                cc = nb.connection_cfg(rng, kind, nb.synapse_cfg(rng, rng.choice(["delta", "deltaplus"] if dy else nb.SYNAPSES)), delayed, dyadic=dy)
                 dt = rng.choice([0.5, 1.0])
                 B = rng.choice([2, 3])
                 g = nb.gen(rng.randrange(2**31))
@@ -249,8 +262,9 @@ def connection_stream(ctx, ex, thorough):
                     c1 = nb.build_connection(dict(cc, wseed=cc["wseed"] + 1 + b), dt, 1)    # constructed with OTHER weights
                     copy_params(big, c1)
                     singles.append(c1)
-                case = {"stream": "connection", "class": kind, "cfg": cc, "dt": dt, "batch": B}
+                case = {"stream": "connection", "class": kind, "cfg": cc, "dt": dt, "batch": B, "exact": exact}
                 ex.count("connection", kind + ("+delay" if delayed else ""))
+                ex.count("comparison", "connection:" + ("torch.equal" if exact else "1e-12 on the reduced output"))
                 bad = None
                 xs = []
                 for t in range(T):
@@ -262,6 +276,9 @@ def connection_stream(ctx, ex, thorough):
                     ex.evaluations += 1
                     for b in range(B):
                         if oB[b:b + 1].shape != o1[b].shape or not torch.equal(oB[b:b + 1], o1[b]):
+                            if not exact and oB[b:b + 1].shape == o1[b].shape and approx(oB[b:b + 1], o1[b], 1e-12):
+                                ex.count("rounding", "connection-output-within-1e-12")
+                                continue
                             bad = (t, b, "output", f"{oB[b].flatten().tolist()[:6]} vs {o1[b].flatten().tolist()[:6]}")
                             break
                     if not bad:
@@ -308,10 +325,12 @@ def layer_stream(ctx, ex, thorough):
     rng = ctx.rng
     T = 20 if thorough else 10
     plan = [(lk, ck) for lk in nb.LAYERS for ck in (["dense", "direct", "lateral", "conv"] if lk != "recurrent" else ["dense", "direct"])]
-    plan = plan * (3 if thorough else 1)
+    plan = plan * (16 if thorough else 4)
     for idx, (lk, ck) in enumerate(plan):
         for attempt in range(4):
-            cfg = nb.layer_cfg(rng, lk, conn_kind=ck, neuron_kind=nb.NEURON_KINDS[(idx + attempt) % 8], batch=rng.choice([2, 3]))
+            dy = idx % 2 == 0
+            cfg = nb.layer_cfg(rng, lk, conn_kind=ck, neuron_kind=nb.NEURON_KINDS[(idx + attempt) % 8], batch=rng.choice([2, 3]), dyadic=dy)
+            tol = None if dy else 1e-9
             B = cfg["batch"]
             g = nb.gen(rng.randrange(2**31))
             big = nb.Net(cfg, batch=B)
@@ -325,7 +344,7 @@ def layer_stream(ctx, ex, thorough):
                 copy_params(big.layer, n1.layer)
                 singles.append(n1)
             X = big.gen_inputs(g, T, rng.choice([0.3, 0.5, 0.7]))
-            case = {"stream": "layer", "cfg": cfg, "batch": B, "steps": T}
+            case = {"stream": "layer", "cfg": cfg, "batch": B, "steps": T, "exact": dy}
             bad, nsp = None, 0
             for t in range(T):
                 with torch.no_grad():
@@ -341,7 +360,7 @@ def layer_stream(ctx, ex, thorough):
                     if bad:
                         break
                 if not bad:
-                    d = compare_snapshots(nb.snapshot({"l": big.layer}), [nb.snapshot({"l": n1.layer}) for n1 in singles], B)
+                    d = compare_snapshots(nb.snapshot({"l": big.layer}), [nb.snapshot({"l": n1.layer}) for n1 in singles], B, tol)
                     if d:
                         bad = (t, d[1], d[0], d[2])
                 if bad:
@@ -352,6 +371,7 @@ def layer_stream(ctx, ex, thorough):
             if nsp or bad or attempt == 3:
                 break
         ex.count("layer", lk)
+        ex.count("comparison", "layer:" + ("torch.equal" if dy else "spikes/pointers exact, floats 1e-9"))
         for c in cfg["conns"]:
             ex.count("layer-connection", c["kind"] + ("+delay" if c["delay"] else ""))
         ex.traces_validated += 1
@@ -374,10 +394,11 @@ def trainer_stream(ctx, ex, thorough):
     rng = ctx.rng
     T = 16 if thorough else 8
     for tk in nb.TRAINERS:
-        for rep in range(4 if thorough else 1):
+        for rep in range(16 if thorough else 4):
             for attempt in range(4):
                 lk = rng.choice(["serial", "serial", "biclique"])
-                cfg = nb.layer_cfg(rng, lk, delayed=True if tk in nb.NEEDS_DELAY else None, batch=rng.choice([2, 3]))
+                dy = rep % 2 == 0
+                cfg = nb.layer_cfg(rng, lk, delayed=True if tk in nb.NEEDS_DELAY else None, batch=rng.choice([2, 3]), dyadic=dy)
                 B = cfg["batch"]
                 tc = nb.trainer_cfg(rng, tk)
                 tc["reduction"] = "sum"
@@ -437,7 +458,8 @@ def trainer_stream(ctx, ex, thorough):
                             break
                     if not bad:
                         # the forward state stays per-sample identical while training is attached
-                        d = compare_snapshots(nb.snapshot({"l": big.layer}), [nb.snapshot({"l": n1.layer}) for n1 in singles], B)
+                        d = compare_snapshots(nb.snapshot({"l": big.layer}), [nb.snapshot({"l": n1.layer}) for n1 in singles], B,
+                                              None if dy else 1e-9)
                         if d:
                             bad = (t, d[0], f"sample {d[1]}: {d[2]}")
                     if bad:
